@@ -65,7 +65,9 @@ def run(ctx):
         import c02
         ctx.guard(c08.keep_only, ctx, lambda: c02.boundaries(ctx, cfg, fs), lambda o: 'byte-length' in o.key or 'width-table' in o.key, 'K.tokenized-as-flag')
         ctx.guard(c08.keep_only, ctx, lambda: c07.table(ctx, cfg, fs), lambda o: 'depth=Less' in o.key or 'depth=Greater' in o.key, 'D.deeper-outcome')
-        import c09
+        import c09, c06, consumers
+        ctx.guard(consumers.forkers, ctx, cfg, fs, 'B.best-effort')
+        ctx.guard(c08.keep_only, ctx, lambda: c06.k5(ctx, cfg, fs), lambda o: 'failure-is-returned' in o.key or 'loop-stops-on-failure' in o.key, 'F.final')
         ctx.guard(c08.keep_only, ctx, lambda: c09.tokenizer(ctx, cfg, fs), lambda o: 'marker-' in o.key, 'K.tokenized-as-flag')
     ctx.guard(sequential, ctx)
 
@@ -141,6 +143,24 @@ def returns(ctx, cfg, fs):
         reach = reachable_edges(b, okt)
         good = rn.bb not in reach and not any(x in reach for x in ok_return_blocks(b))
     ctx.ob('H.help-first', 'run_subparser:help-found-is-final', good, 'once the help/version flag is found neither a value nor an error can be returned: %s' % good, where=ie.where(), cfg=cfg)
+    # an inner answer that is already final (Message::ParseFailure: the output or the rendered error of a subcommand that was
+    # entered) is handed on before this level looks for ITS OWN help/version flag: the lookup is reachable only over an edge that
+    # says "the inner result is Ok" or "its message is not ParseFailure"
+    res_roots = lambda rs: bool(rs) and all(r.kind == 'call' and r.call.bb == ev.bb for r in rs)
+    not_final = []
+    for s_ in switches(b):
+        if s_.kind != 'enum':
+            continue
+        rs = provenance(b, s_.place, s_.discr_site[0], s_.discr_site[1], through=None)
+        if not res_roots(rs):
+            continue
+        if s_.enum.endswith('result::Result') and all(not r.path for r in rs):
+            not_final.append((s_.b, s_.target('Ok')))
+        elif s_.enum == 'error::Message' and s_.target('ParseFailure') is not None:
+            not_final += [(s_.b, t) for o, t in s_.edges.items() if o != 'ParseFailure' and t != s_.target('ParseFailure')]
+    ok = bool(not_final) and ie.bb not in reachable_edges(b, 0, removed_edges=not_final)
+    ctx.ob('H.help-first', 'run_subparser:inner-final-answer-precedes-lookup', ok,
+           'the help/version lookup of this level is reachable only when the inner parser did not end with a final answer (%d deciding edge(s)): %s' % (len(not_final), ok), where=ie.where(), cfg=cfg)
     # P payload
     rh = sites_through_helpers(fs, b, r'^meta_help::render_help$')
     for c, via in rh:
